@@ -378,7 +378,43 @@ def check_dirs(ctx):
                       for x in walk_no_nested(fa.node))
     # (i) a missing directory only skips itself: the handler of the lookup
     # sits inside the loop
+    softs = soft_lookups(prog, r)
+    soft_guards = []      # `if X is None / not X: continue` for X = lookup
+
+    def none_guard(call):
+        """the lookup result is kept in a name and the very next statement
+        of the loop leaves the iteration when it is None / falsy"""
+        st = pma.get(call)
+        if not (isinstance(st, ast.Assign) and len(st.targets) == 1
+                and isinstance(st.targets[0], ast.Name)):
+            return None
+        holder = pma.get(st)
+        body = getattr(holder, 'body', [])
+        if st not in body:
+            return None
+        nxt = body[body.index(st) + 1] if body.index(st) + 1 < len(
+            body) else None
+        x = st.targets[0].id
+        if isinstance(nxt, ast.If) and not nxt.orelse and U(
+                nxt.test).replace(' ', '') in (
+                    '%sisNone' % x, 'not%s' % x) and nxt.body and \
+                isinstance(nxt.body[-1], ast.Continue):
+            return nxt
+        return None
     for c in ast.walk(ol):
+        if isinstance(c, ast.Call) and prog.callee_of(
+                fa, c) is not None and prog.callee_of(fa, c).qual in softs:
+            g = none_guard(c)
+            if g is not None:
+                soft_guards.append(g)
+            ctx.ob('C09.SKIP', g is not None, W(c, fa), fa.qual,
+                   'per-directory lookup ' + U(c)[:60],
+                   'a configured directory that does not exist (the lookup '
+                   'answers None) is skipped on its own' if g is not None
+                   else 'the lookup answers None for a directory that does '
+                   'not exist and the loop does not skip that directory '
+                   'right away')
+            continue
         if isinstance(c, ast.Call) and prog.callee_of(fa, c) is r.get_path:
             cur, anc, inside = c, pma.get(c), False
             while anc is not None and anc is not ol:
@@ -405,7 +441,8 @@ def check_dirs(ctx):
                                                            ast.Break))
                  and x.lineno < c.lineno and not any(
                      isinstance(a, ast.ExceptHandler)
-                     for a in _ancestors(pma, x))]
+                     for a in _ancestors(pma, x)) and not any(
+                     x in g.body for g in soft_guards)]
         ok = cond is None and not skips
         ctx.ob('C09.DIR-ORDER', ok, W(c, fa), fa.qual, U(c)[:80],
                'every configured directory that exists is kept, in '
@@ -775,15 +812,57 @@ def check_walker(ctx):
            '(path: %s)' % skipped.cond_text()[-200:])
 
 
+def soft_lookups(prog, r):
+    """Functions that answer the located path, or None / a falsy value for a
+    path the configuration's file search does not find, and never raise
+    ConfigFilesNotFoundError: the lookup role itself when it has no raise,
+    and one-line wrappers `try: return <lookup>(p) / except
+    ConfigFilesNotFoundError: return None`."""
+    out = set()
+    g = r.get_path
+    if not any(isinstance(x, ast.Raise) for x in ast.walk(g.node)):
+        out.add(g.qual)
+    for f in prog.functions.values():
+        if f.module is not g.module or f is g:
+            continue
+        body = [b for b in f.node.body if not (
+            isinstance(b, ast.Expr) and isinstance(b.value, ast.Constant))]
+        if len(body) == 1 and isinstance(body[0], ast.Try) and len(
+                body[0].body) == 1 and isinstance(
+                    body[0].body[0], ast.Return) and isinstance(
+                        body[0].body[0].value, ast.Call) and prog.callee_of(
+                            f, body[0].body[0].value) is g and all(
+                    'ConfigFilesNotFoundError' in U(h.type or '')
+                    and len(h.body) == 1 and isinstance(
+                        h.body[0], ast.Return) and (
+                            h.body[0].value is None or is_const(
+                                h.body[0].value, None))
+                    for h in body[0].handlers) and not body[0].finalbody \
+                and not body[0].orelse:
+            out.add(f.qual)
+    return out
+
+
 def check_skip(ctx):
     prog = ctx.prog
     r = roles(ctx)
     n = 0
+    softs = soft_lookups(prog, r)
+    for lr in r.bodies:
+        for c in walk_no_nested(lr.node):
+            g = prog.callee_of(lr, c) if isinstance(c, ast.Call) else None
+            if g is not None and g.qual in softs:
+                n += 1
+                ctx.ob('C09.SKIP', True, ctx.where(lr.module, c), lr.qual,
+                       'lookup ' + U(c)[:70],
+                       'the lookup answers None for a missing policy file / '
+                       'directory instead of raising')
     for lr in r.bodies:
         pm = parent_map(lr.node)
         for c in walk_no_nested(lr.node):
             if not (isinstance(c, ast.Call)
-                    and prog.callee_of(lr, c) is r.get_path):
+                    and prog.callee_of(lr, c) is r.get_path
+                    and r.get_path.qual not in softs):
                 continue
             n += 1
             cur, anc, caught, reraises = c, pm.get(c), [], False
@@ -840,6 +919,28 @@ def check_lookup_helper(ctx):
             bad = bad or (p, 'returns %s, which is not a path the '
                           'configuration\'s file search found' % U(
                               t.expand(e))[:60])
+    if g.qual in soft_lookups(prog, r):
+        # the None-answering form: every return is the file search's answer
+        # (or None in its place)
+        bad = None
+        for p in t.paths:
+            e = t.expand(p.outcome.expr) if p.outcome.kind == 'return' and \
+                p.outcome.expr is not None else None
+            parts = e.values if isinstance(e, ast.BoolOp) and isinstance(
+                e.op, ast.Or) else [e]
+            okp = e is not None and isinstance(parts[0], ast.Call) and \
+                method_call(parts[0], 'find_file') and all(
+                    is_const(x, None) for x in parts[1:])
+            if not okp:
+                bad = bad or (p, 'returns %s' % (
+                    U(e)[:60] if e is not None else None))
+        ctx.ob('C09.SKIP', bad is None, W, g.qual,
+               'path lookup (None-answering form, %d paths)' % len(t.paths),
+               'answers with what the configuration\'s file search found, '
+               'None otherwise' if bad is None else
+               'the path lookup %s, which is not the answer of the '
+               'configuration\'s file search' % bad[1])
+        return
     ok = bad is None and n_ret > 0 and n_raise > 0
     ctx.ob('C09.SKIP', ok, '%s:%d' % (W.split(':')[0], bad[0].outcome.line)
            if bad else W, g.qual,
